@@ -136,6 +136,11 @@ def check(ctx, data, kind, F, body, tree, feat):
     if ctx.replay_case:
         if feat.get("after_broken_file") is not None:
             poison(ctx, feat["after_broken_file"])
+        for prev in feat.get("after_files_latin1", []):
+            try:
+                parse_header(io.BytesIO(prev.encode("latin_1")))  # the files read right before (same header, other layout in front)
+            except Exception:  # noqa
+                pass
     elif ctx.rng.random() < 0.15:
         feat = dict(feat, after_broken_file=ctx.rng.randrange(len(POISON)))
         poison(ctx, feat["after_broken_file"])
@@ -307,6 +312,39 @@ def run_shard(ctx):
             ctx.distinct(data)
         if li % 40 == 0:
             ctx.sample({"file": data[:260].decode("latin_1"), "layout": feat})
+    same_header_other_lead(ctx, rng)
+
+
+def same_header_other_lead(ctx, rng):
+    """Files that carry the SAME header text and differ only in what stands in front of it (nothing, blank lines of either kind),
+    read one after the other in one process: each body is that file's own - nothing remembered from the previous file's layout."""
+    for kind in ("v1-crlf", "v1-cr", "v1-lf", "v2"):
+        tree, body = body_for(rng, "utf_8", ascii_only=False)
+        uid = "".join(rng.choice(UIDCHARS) for _ in range(12))
+        before = []
+        if kind == "v2":
+            leads = ["", "\r\n\r\n", "\n", "\r\n", "\n\n\n", ""]
+        else:  # blank lines in the file's own line-break convention (as the layouts above)
+            nl = SEPS[kind.split("-")[1]]
+            leads = ["", nl, nl * 2, nl * 3, nl, ""]
+        rng.shuffle(leads)
+        for lead in leads:
+            if kind == "v2":
+                F = {"OFXHEADER": "200", "VERSION": "220", "SECURITY": "NONE", "OLDFILEUID": "NONE", "NEWFILEUID": uid}
+                data = v2_file(F, '"', '"', "\r\n", "\r\n", lead, body, "")
+                feat = {"q": "dd", "br": "22", "lead": len(lead), "same_header": True}
+                k = "v2"
+            else:
+                sepn = kind.split("-")[1]
+                F = {"OFXHEADER": "100", "DATA": "OFXSGML", "VERSION": "160", "SECURITY": "NONE", "ENCODING": "UNICODE", "CHARSET": "NONE", "COMPRESSION": "NONE",
+                     "OLDFILEUID": "NONE", "NEWFILEUID": uid}
+                data = v1_file(F, SEPS[sepn], 0, lead, SEPS[sepn] * 2, True, body, "utf_8", "")
+                feat = {"sep": sepn, "gapclass": "ws", "lead": len(lead), "enc": "UNICODE", "cs": "NONE", "same_header": True}
+                k = "v1"
+            feat["after_files_latin1"] = list(before)
+            ctx.count("same_header_other_lead_files")
+            check(ctx, data, k, F, body, tree, feat)
+            before.append(data.decode("latin_1"))
 
 
 def replay(ctx, case):
